@@ -223,7 +223,10 @@ _upd('C12',
      'parse_lexer_errors_are_syntax_errors through token, auto_semi, the guarded back-track and _raise_syntax_error; '
      'parse_action_errors_are_production_errors by a shape typing closed under every action row), never ply\'s recovery mode, '
      'never out of fuel (lr_steps_bounded: iterations <= 55 * (successful lexer/p_error calls + 1) for every semantics and source, '
-     'from rank certificates; parser_source_bound <= 8|text|+4 calls; parse_never_out_of_fuel). The model is tied to parse() by '
+     'from rank certificates; parser_source_bound <= 8|text|+4 calls; parse_never_out_of_fuel). Error positions (Props/C12pos): '
+     'parse_offending_token_located - in every syntax error made by the parser the previous and the offending token are located in '
+     'the text (text at offset, line:column by ES5 counting); the claim for the quoted look-ahead is false (inserted semicolon; '
+     'syntax_error_tokens_located_partial + kernel refutation); positions in the lexer\'s own messages are judged. The model is tied to parse() by '
      'comparing trees and exact exception class + message; the judge runs every truncation and single-character corruption of G1 '
      'programs, all strings <= 2 and sampled 3-8 over a lexical alphabet, in a forked child with a time limit.',
      'Trusted: Lean kernel, standard axioms, translators (tables, item/rank certificates are untrusted and checked), hand-transcribed '
